@@ -51,6 +51,11 @@ FINDINGS = [
     {'id': 'F-C16-1', 'property': 'C16', 'status': 'fixed',
      'what': 'tables: an escaped backslash directly before the closing border pipe of a row was deleted together with the border',
      'witness': {'kind': 'table_end_border', 'text': '|a|b\\\\|\n|-|-|\n|c|d\\\\|'}},
+] + [
+    {'id': 'F-C16-3', 'property': 'C16', 'status': 'fixed', 'commit': '732d7f5',
+     'what': 'meta: a first line that merely starts like a delimiter (`...and so on`, `----`, `... x`, `...`) was popped and dropped although the document holds no meta-data (BEGIN_RE/END_RE not anchored; END honoured before any key)',
+     'witness': {'kind': 'ni', 'text': t, 'extension': 'meta', 'base': []}}
+    for t in ('...and so on\n\ntext', '----\ntext', '... and so on\n\ntext', '...\n\ntext')
 ]
 _RE_REFDEF = re.compile(r'^\[[^\^\]][^\]]*\]: ', re.M)
 _RE_BRACKETS = re.compile(r'[\])`*_>] ?\[\^|\[\^[^\]]*\] ?[\[!`*_<\\]|\]\][`*_<!\\]|[`*_>)]\[\[')
@@ -806,7 +811,7 @@ def ni_doc(rng):
 
 
 NI_EXTS = ['tables', 'fenced_code', 'def_list', 'footnotes', 'admonition', 'attr_list', 'abbr', 'nl2br', 'sane_lists', 'wikilinks', 'md_in_html',
-           'toc', 'smarty', 'extra']
+           'toc', 'smarty', 'extra', 'meta']
 
 
 # ------------------------------------------------------------------------------------------------ search
@@ -906,6 +911,10 @@ def search(driver, rng, n):
 
 
 def replay(witness):
+    if witness.get('kind') == 'ni':
+        import markdown
+        base = list(witness.get('base') or [])
+        return markdown.markdown(witness['text'], extensions=sorted(base + [witness['extension']])) != markdown.markdown(witness['text'], extensions=base)
     if witness.get('kind') == 'table_end_border':
         # the last cell of the header row and of the body row must show the escaped backslash: `b\\` and `d\\`
         import markdown
